@@ -570,6 +570,16 @@ class IrToWasmCompiler:
         "MOVF64",
     }
 
+    # Unary minus and bitwise not, for all integer types:
+    neg_operators = {
+        "NEG" + str(ty).upper(): ty
+        for ty in (ir.i8, ir.u8, ir.i16, ir.u16, ir.i32, ir.u32, ir.i64, ir.u64)
+    }
+    inv_operators = {
+        "INV" + str(ty).upper(): ty
+        for ty in (ir.i8, ir.u8, ir.i16, ir.u16, ir.i32, ir.u32, ir.i64, ir.u64)
+    }
+
     cmp_operators = {
         "CJMPI8": ir.i8,
         "CJMPU8": ir.u8,
@@ -604,14 +614,16 @@ class IrToWasmCompiler:
         elif tree.name in self.reg_operators:
             self.emit("local.get", self.get_value(tree.value))
             self.stack += 1
-        elif tree.name in ["NEGI32", "NEGI16", "NEGI8"]:
-            self.emit("i32.const", 0)
+        elif tree.name in self.neg_operators:
+            wasm_ty = self.get_ty(self.neg_operators[tree.name])
+            self.emit(wasm_ty + ".const", 0)
             self.do_tree(tree[0])
-            self.emit("i32.sub")
-        elif tree.name == "NEGI64":
-            self.emit("i64.const", 0)
+            self.emit(wasm_ty + ".sub")
+        elif tree.name in self.inv_operators:
+            wasm_ty = self.get_ty(self.inv_operators[tree.name])
             self.do_tree(tree[0])
-            self.emit("i64.sub")
+            self.emit(wasm_ty + ".const", -1)
+            self.emit(wasm_ty + ".xor")
         elif tree.name == "NEGF32":
             self.do_tree(tree[0])
             self.emit("f32.neg")
